@@ -31,6 +31,10 @@ def handle (op : String) (args : List String) : Option String :=
   | "dadd" => some ((run (dadd false) args).getD "bad-args")
   | "dsub" => some ((run (dadd true) args).getD "bad-args")
   | "dmean" => some ((run dmean args).getD "bad-args")
+  -- block / aliasing variants of the harness: the same model functions
+  | "daddB" => some ((run (dadd false) args).getD "bad-args")
+  | "dsubB" => some ((run (dadd true) args).getD "bad-args")
+  | "dmeanB" => some ((run dmean args).getD "bad-args")
   | _ => none
 
 end BFL.DriverDir
